@@ -66,9 +66,9 @@ CLAIMS = {
   note="the reader's data-path completeness (a valid file is read to the end under every buffer-size sequence) is covered by the differential run and by C02's soundness theorems, not by a completeness theorem; an index larger than 2^31-1 bytes is written but refused by the reader (recorded finding, needs ~16.5 M chunks)",
   tech="Coq: loop-to-fold chunker lemmas, encode/decode proof of the whole header, scanner invariant; real library and tool round trips incl. FIFO-controlled read partitions", ref="DESIGN.md 6 C01/C16"),
  "C02": dict(
-  text="Partial. Proved for unit-decoded (zstd) files, every file, hash, decoder and sequence of non-empty buffer sizes: if the file opens, reads continue until one returns 0 and close succeeds, then the specification's header/chunk/data verification holds and the bytes handed out equal the specification decoder's content (all dictionary / flag combinations); a successful specification decode implies every chunk has exactly its declared size (both compression types); unzck model: exit 0 implies output = specification content, failure leaves no output. The uncompressed streaming path is not proved: it rests on the differential run (model vs ASan library on ~17k quick / 280k thorough valid and mutated files: body bit flips, substitutions, insertions, deletions, every truncation length of small files, re-sealed structure edits, six read-size patterns) with the specification decoder as oracle, plus unzck on a sample.",
+  text="Proved for every byte sequence, hash, decoder, fuel and sequence of non-empty buffer sizes, for zstd AND uncompressed files, with and without dictionary, with and without the uncompressed-source flag: if the file opens, reads continue until one returns 0 and close succeeds, then the specification's header/chunk/data verification holds and the bytes handed out equal the specification decoder's content; a successful specification decode implies every chunk has exactly its declared size; unzck model: exit 0 implies output = specification content, failure leaves no output. Tie: model vs ASan library on ~17k quick / 280k thorough valid and mutated files (body bit flips, substitutions, insertions, deletions, every truncation length of small files, re-sealed structure edits, six read-size patterns) with the specification decoder as oracle, plus unzck on a sample.",
   note="hash and zstd decoder are parameters (no hypothesis used); zck_validate_data_checksum enters the unzck theorem through its C09 contract; ZSTD_createDDict failure not modelled",
-  tech="faithful Gallina model of comp_read as one fuelled loop + stream invariant (released ++ buffered = decode of a checksum-verified table prefix); extracted model vs library; independent specification decoder (OpenSSL/libzstd instances) as oracle", ref="DESIGN.md 6 C02/C15/C14"),
+  tech="faithful Gallina model of comp_read as one fuelled loop + stream invariants (zstd: released ++ buffered = decode of a checksum-verified table prefix; uncompressed: released ++ dc ++ comp.data = body prefix read so far, every closed chunk verified); extracted model vs library; independent specification decoder (OpenSSL/libzstd instances) as oracle", ref="DESIGN.md 6 C02/C15/C14"),
  "C15": dict(
   text="Proved for every zstd file and every sequence of reads: the bytes returned (after the dictionary's data) are a prefix of the decode of a chunk-table prefix in which every stored chunk hashes to its index digest; after the first failed read every later read fails (sticky error state). Tie and model-independent oracle: single-bit flips of first/middle/last chunk bodies that still decompress x buffer sizes {1, c-1, c, c+1, 32 KiB}, each followed by further reads and close: nothing of the bad chunk is ever handed out.",
   note="no assumption on hash or decoder; error stickiness modelled through error_state (VALIDATE macros)",
